@@ -361,7 +361,7 @@ func runC18(a *args) error {
 		quietRounds = 120 // long enough for the partition groups to elect, so that every proposal of the allocator is made
 	}
 	r := newRng(a.seed)
-	st := newStats("backlogs of membership notifications (Conn.AddNode / RemoveNode as the zero group applies them) and catalogue entries (create / delete through DatasetManager.process) fed by one goroutine to a real Conn + Allocator (loop running) + DatasetManager; the allocator's own proposals are queued behind the backlog; scripted restarts (members then datasets, datasets then churn, a burst of 40 joins around creations) plus generated backlogs of 4..17 entries; watchdog 25 s; afterwards a probe dataset must get its partition loaded by the allocator loop (run where pending configuration changes are bounded by 25 s); non-trivial = backlog mixes both kinds and the allocator made >= 1 proposal; distinct by hash of the backlog")
+	st := newStats("backlogs of membership notifications (Conn.AddNode / RemoveNode as the zero group applies them) and catalogue entries (create / delete through DatasetManager.process) fed by one goroutine to a real Conn + Allocator (loop running) + DatasetManager; the allocator's own proposals are queued behind the backlog; scripted restarts (members then datasets, datasets then churn, a burst of 40 joins around creations) plus generated backlogs of 4..17 entries; watchdog 25 s; plus a stress of the membership book (1500 join/leave pairs applied while 8 goroutines dial peers and a subscriber reads the member list, watchdog 20 s); afterwards a probe dataset must get its partition loaded by the allocator loop (run where pending configuration changes are bounded by 25 s); non-trivial = backlog mixes both kinds and the allocator made >= 1 proposal; distinct by hash of the backlog")
 	var cases []c18Case
 	if a.replay != "" {
 		var c c18Case
@@ -432,6 +432,9 @@ func runC18(a *args) error {
 			st.Samples = append(st.Samples, map[string]interface{}{"backlog": cases[0].Backlog, "applied": cases[0].Applied, "proposals": cases[0].Proposals, "millis": cases[0].Millis})
 		}
 	}
+	if a.replay == "" {
+		c18ConnStress(st)
+	}
 	var items []string
 	for _, c := range cases {
 		items = append(items, coqC18Case(c))
@@ -443,4 +446,85 @@ func runC18(a *args) error {
 		return err
 	}
 	return writeJSON(a.out+"/stats.json", st)
+}
+
+// c18ConnStress: the membership book under the load a restart or a churning cluster puts on it - the zero group's apply
+// loop adding and removing peers, a subscriber reacting to every notification by reading the member list (as the
+// allocator loop does), and raft / dataset clients dialling peers that have no cached connection. Whatever the
+// interleaving, the apply loop must get through its entries.
+func c18ConnStress(st *stats) {
+	conn, _ := cluster.NewConn(1, "sim-1", "")
+	stop := make(chan struct{})
+	notif := conn.NodeChangesNotifications()
+	go func() { // subscriber
+		for {
+			select {
+			case <-notif:
+				conn.NodeIds()
+			case <-stop:
+				return
+			}
+		}
+	}()
+	for d := 0; d < 8; d++ { // dialers
+		go func(d int) {
+			for i := 0; ; i++ {
+				select {
+				case <-stop:
+					return
+				default:
+				}
+				if c, err := conn.Dial(uint64(2 + (i+d)%6)); err == nil && c != nil && i%64 == 0 {
+					conn.Nodes()
+				}
+			}
+		}(d)
+	}
+	pairs := 1500
+	done := make(chan int, 1)
+	progress := make(chan int, pairs+1)
+	go func() { // the apply loop
+		for i := 0; i < pairs; i++ {
+			id := uint64(2 + i%6)
+			conn.AddNode(id, fmt.Sprintf("127.0.0.1:%d", 19000+i%6))
+			conn.RemoveNode(id)
+			progress <- i + 1
+		}
+		done <- pairs
+	}()
+	select {
+	case <-done:
+		st.count("conn-stress:finished")
+	case <-time.After(20 * time.Second):
+		last := 0
+		for more := true; more; {
+			select {
+			case last = <-progress:
+			default:
+				more = false
+			}
+		}
+		buf := make([]byte, 1<<20)
+		buf = buf[:runtime.Stack(buf, true)]
+		where := ""
+		for _, g := range strings.Split(string(buf), "\n\n") {
+			if strings.Contains(g, "cluster.(*Conn).") && (strings.Contains(g, "semacquire") || strings.Contains(g, "sync.(*RWMutex)") || strings.Contains(g, "sync.(*Mutex)")) {
+				var fr []string
+				for _, l := range strings.Split(g, "\n") {
+					if strings.HasPrefix(l, "github.com/marekgalovic/anndb/cluster.(*Conn).") {
+						f := strings.TrimPrefix(l, "github.com/marekgalovic/anndb/cluster.(*Conn).")
+						if k := strings.Index(f, "("); k > 0 {
+							f = f[:k]
+						}
+						fr = append(fr, f)
+					}
+				}
+				if len(fr) > 0 && !strings.Contains(where, strings.Join(fr, "<-")) {
+					where += " [" + strings.Join(fr, "<-") + "]"
+				}
+			}
+		}
+		st.ImplFailures = append(st.ImplFailures, implFailure{Case: -1, What: fmt.Sprintf("membership changes applied while peers are being dialled and the member list is read: the apply loop stopped after %d of %d join/leave pairs and made no progress for 20 s; goroutines blocked on the book's locks in:%s", last, pairs, where), Key: "membership-book-wedged", Input: map[string]interface{}{"pairs": pairs, "dialers": 8}})
+	}
+	close(stop)
 }
